@@ -33,6 +33,14 @@ def _run_job(arg):
              'discharged': 0, 'solver_s': 0.0, 'violations': [], 'inconclusive': [f'job crashed: {type(e).__name__}: {e}'], 'witnesses': {}, 'samples': [],
              'encoded': [], 'models': [], 'withheld': {}, 'diff_ok': 0, 'diff_fail': [], 'smt_dumps': [], 'bounds': {}, 'notes': []}
     d['wall'] = time.time() - t0
+    covdir = os.environ.get('VERIF_COV')
+    if covdir:
+        from . import core
+        if core.COV:
+            os.makedirs(covdir, exist_ok=True)
+            json.dump({k: sorted(v) for k, v in core.COV.items()},
+                      open(os.path.join(covdir, f'{pid}-{jobname}-{os.getpid()}-{int(time.time()*1000)}.json'.replace('/', '_')), 'w'))
+            core.COV.clear()
     return d
 
 
@@ -105,7 +113,9 @@ def main(argv=None):
     if hasattr(m, 'prepare'):
         m.prepare()
     jobs = m.jobs(tier, seed)
-    if a.only:
+    if a.only and a.only.startswith('='):      # explicit job names (development: jobs that are in no tier yet)
+        jobs = a.only[1:].split(',')
+    elif a.only:
         jobs = [j for j in jobs if a.only in j]
     args = [(pid, j, tier, seed, dump_path) for j in jobs]
     if a.jobs <= 1 or len(args) <= 1:
